@@ -370,10 +370,13 @@ def simu_cases(draw):
     elif kind == "2d":
         r = draw(gm.recipes2d(types=t2, hmin=6, hmax=10))
         if r["elemType"].startswith("QUAD"):  # gmsh leaves triangles in unstructured QUAD meshes; WeakForms is single-group
-            r["verts"] = r["verts"][:4]
+            r["verts"] = draw(gm.polygons(4, 4))
             r["organised"] = True
     else:
         r = draw(gm.recipes3d(types=types3d()))
+        if r["elemType"].startswith("HEXA"):
+            r["verts"] = draw(gm.polygons(4, 4))
+            r["organised"] = True
     dim = gm.dim_of(r["elemType"])
     case = dict(problem=problem, scheme=scheme, mt=mt, recipe=r, rho=draw(st.integers(1, 12)) / 4.0,
                 bc_seed=draw(st.integers(0, 999)), dval=draw(st.integers(-4, 4)) / 2.0,
